@@ -77,7 +77,7 @@ func vRestart(docs, meta *vFile) (*ActiveWriter, []vTask, error) {
 		}
 	}()
 	f := &Active{
-		info:       &Info{Path: "frac", MetaOnDisk: uint64(len(meta.data))},
+		info:       &Info{Path: "frac", DocsOnDisk: uint64(len(docs.data)), MetaOnDisk: uint64(len(meta.data))}, // sizes of the files found, as NewActive/NewInfo set them
 		indexer:    ai,
 		metaReader: disk.NewDocBlocksReader(disk.NewReadLimiter(1, nil), nil),
 	}
